@@ -4,4 +4,7 @@ for p in $(python3 -c "import json;print(' '.join(c['property_id'] for c in json
   out=$(/verif/bin/govc check -p $p -tier quick -noevidence 2>&1); rc=$?
   echo "$p rc=$rc $(echo "$out" | grep '^govc: property' | tail -1)"
   echo "$out" | grep '^VIOLATION\|error' | head -5
+  # a clause that names a site / identifier the unchanged tree does not have is a
+  # contract that silently checks nothing: must be empty here
+  echo "$out" | grep 'STALE-OR-UNSUPPORTED' | grep -v 'program points unreachable' | sed 's/^/  STALE ON THE UNCHANGED TREE: /' | cut -c1-300
 done
